@@ -27,6 +27,25 @@ fn main() {
         usage();
     }
     let prop = args[1].clone();
+    if prop == "dev-crosscheck" {
+        // development aid: how often does the candidate stream of C11's cross-check family hit?
+        let n: u32 = args.get(2).and_then(|x| x.parse().ok()).unwrap_or(1_000_000);
+        let t0 = std::time::Instant::now();
+        let (mut x, mut cand, mut hits) = (12345u64, 0u64, 0u64);
+        for _ in 0..n {
+            if let Some(p) = props::searchsem::cross_check_candidate(&mut x) {
+                cand += 1;
+                if props::searchsem::has_cross_check_line(&p) {
+                    hits += 1;
+                    if hits <= 5 {
+                        println!("{}", p.fen());
+                    }
+                }
+            }
+        }
+        println!("tries {} candidates {} hits {} in {:?}", n, cand, hits, t0.elapsed());
+        return;
+    }
     let mut tier = match std::env::var("VERIF_TIER").as_deref() {
         Ok("thorough") => Tier::Thorough,
         _ => Tier::Quick,
